@@ -87,6 +87,32 @@ theorem loan_growth (cash rate markup : ℝ) (dt : Int) (hc : cash < 0) :
   rw [show 1 + rate + markup = 1 + (rate + markup) by ring]
   ring
 
+theorem yearsOf_pos (dt : Int) (h : 0 < dt) : 0 < yearsOf dt := by
+  unfold yearsOf
+  exact div_pos (by exact_mod_cast h) usPerYear_pos
+
+/-- **No net rate is too small to earn**: idle cash at any `rate > markup`, however close, over any positive time
+    earns a strictly positive amount (there is no dust threshold on rates). -/
+theorem tiny_rate_still_earns (cash rate markup : ℝ) (dt : Int) (hc : 0 < cash) (hr : markup < rate) (hdt : 0 < dt) :
+    0 < accruedAmount Real.rpow cash rate markup dt := by
+  rw [amount_eq]
+  simp only [hc, if_true, true_and]
+  have h1 : (1 : ℝ) < 1 + (rate - markup) := by linarith
+  have hgt : 1 < Real.rpow (1 + (rate - markup)) (yearsOf dt) := Real.one_lt_rpow h1 (yearsOf_pos dt hdt)
+  have hpos : 0 < cash * (Real.rpow (1 + (rate - markup)) (yearsOf dt) - 1) := mul_pos hc (by linarith)
+  rw [if_neg (not_lt.mpr (le_of_lt hpos))]
+  exact hpos
+
+/-- ... and a loan at any `rate + markup > 0`, however small, is charged a strictly negative amount. -/
+theorem tiny_rate_still_charges (cash rate markup : ℝ) (dt : Int) (hc : cash < 0) (hr : 0 < rate + markup)
+    (hdt : 0 < dt) : accruedAmount Real.rpow cash rate markup dt < 0 := by
+  rw [amount_eq]
+  have hn : ¬ 0 < cash := not_lt.mpr (le_of_lt hc)
+  simp only [hn, hc, if_false, if_true, false_and]
+  have h1 : (1 : ℝ) < 1 + (rate + markup) := by linarith
+  have hgt : 1 < Real.rpow (1 + (rate + markup)) (yearsOf dt) := Real.one_lt_rpow h1 (yearsOf_pos dt hdt)
+  exact mul_neg_of_neg_of_pos hc (by linarith)
+
 theorem zero_balance (rate markup : ℝ) (dt : Int) : bal 0 rate markup dt = 0 := by
   unfold bal; rw [amount_eq]; simp
 
